@@ -606,7 +606,8 @@ func rulesC15(c *Ctx) {
 	c.Rule("same-path")
 	c01Outermost(c)
 	c16Executor(c)
-	execStateMethods(c, map[string]bool{"Cancel": true, "InitializeRetry": true, "RecordResult": true, "IsCanceledWithResult": true, "isCanceledWithResult": true})
+	execStateMethods(c, map[string]bool{"Cancel": true, "InitializeRetry": true, "RecordResult": true, "IsCanceledWithResult": true, "isCanceledWithResult": true,
+		"CopyForCancellable": true, "CopyForHedge": true, "copy": true})
 	c.Rule("cancel-reported")
 	retryLoop(c, map[string]bool{"recheck": true, "returns": true})
 	c09Loop(c)
